@@ -24,9 +24,9 @@ LEVEL_NOTE = ("theorems are about model/CopyOps.v (copy_ecu, copy_frame, copy_ec
               "target.frames / free signals / the define and attribute dicts / ENUM value lists: the oracle judges sets (which frames, "
               "which ECUs, which definitions, the values), the tie compares normal forms modulo those orders (canon()), the model keeps "
               "the order of the code it was read from; also outside the statement and therefore not tied: which further values an ENUM "
-              "value list offers after a copy, definitions that give no object a value (copy_signal brings them, copy_frame does not), "
-              "copy_frame for an id the source does not have and copy_signal with a valueless ENUM definition (the model's m_err "
-              "paths for these are not requested by the generators)")
+              "value list offers after a copy, copy_frame for an id the source does not have, and "
+              "copy_signal when the source has a signal definition without default (whether a definition the signal has no value for "
+              "comes along, or raises for ENUM, is open): these requests are not generated, the model's paths for them stay untied")
 
 CATS = ("sig", "frame", "ecu", "glob")
 CATNUM = {"sig": 0, "frame": 1, "ecu": 2, "glob": 3}
@@ -372,8 +372,7 @@ def _canon(groups):
     """Normal form modulo what the property does not fix.  Orders: ECU list, frame list, free-signal list, the define dicts, the
     attribute dicts of every object, global attributes, environment variables.  Content: the value LIST of an ENUM definition
     (the property speaks of effective values and of the definitions the copied objects use, not of which further values a list
-    offers; that the definition string is the rendered list stays visible through the definition field) and definitions without
-    default (they give no object a value).  Kept: the signals of a frame in
+    offers; that the definition string is the rendered list stays visible through the definition field).  Kept: the signals of a frame in
     order, transmitter and receiver lists in order, every field, every definition's string/type/default.  Sorting is stable,
     so frames sharing an identifier (malformed stream) keep their relative order."""
     def sort_pairs(flat):
@@ -398,10 +397,6 @@ def _canon(groups):
             defs.append(g[:6])         # [5, cat, name, definition (0 for a consistent ENUM string), type, default]: no value list
         else:
             rest.append(g)
-    # a definition without default gives no object a value (explicit values do not come from it): whether it is in the target is
-    # not observable through effective values; that the definitions the copied objects USE are brought is the oracle's
-    # define-not-brought / define-differs
-    defs = [g for g in defs if g[5] != -1]
     ecus.sort(key=lambda g: g[1])
     blocks.sort(key=lambda b: (b[0][1], b[0][2]))
     free.sort()
@@ -616,9 +611,10 @@ def systematic_cases():
                                    ([dict(op="merge", n=2)], [src2, src])]
                             if names != "distinct":
                                 ops = [ops[0], ops[1], ops[4], ops[8]]
-                            if cat == "sig" and enum and sstate == "novalue":
-                                # copy_signal and an ENUM definition the signal has no value for (no explicit value, no default): the
-                                # property says nothing about it (the code as read raises in Define.update()) - not requested
+                            if cat == "sig" and sstate == "novalue":
+                                # copy_signal and a definition the copied signal has no value for (no explicit value, no default):
+                                # the statement says nothing about free-signal copies beyond the bystander rule, and whether such a
+                                # definition comes along (or, for ENUM, Define.update() raises) is open - not requested
                                 ops = [(o, ss) for o, ss in ops if o[0]["op"] != "signal"]
                             for o, srcs in ops:
                                 cell = "%s/%s/tgt-%s/src-%s/byst-%s%s%s" % (cat, "ENUM" if enum else "STRING", tstate, sstate, byst,
@@ -703,6 +699,8 @@ def gen_op(rng, src, tgt, malformed):
     if kind == "merge":
         return dict(op="merge", n=rng.choice([1, 1, 2]))
     names = [e[0] for e in src["ecus"]]
+    if kind == "signal" and any(d[2] is None for d in src["defs"]["sig"]):
+        kind = "ecu"         # see systematic_cases: copy_signal is requested only when every signal definition of the source has a default
     if kind == "signal":
         snames = [s["name"] for f in src["frames"] for s in f["sigs"]]
         return dict(op="signal", glob=rng.choice(snames + ["*", "nosuch"]))
